@@ -31,7 +31,7 @@ CONFIGS = {
     },
     "C20": {
         "level": "exploration",
-        "rule": "one run = ruleset with every label shape (multi-digit lengths, Y1, X1, K, M) x drawn --min_length/--max_length x "
+        "rule": "one run = ruleset with every label shape (multi-digit and three-digit lengths, Y1, X1, K, M) x drawn --min_length/--max_length x "
                 "--terminal_set x --regex x --copy; edit_rules.main() on the scratch disk with the whole tree hashed before and after; "
                 "oracle: grammar.txt == original lines minus the failing ones, byte for byte and in order; nothing else changed; with "
                 "--copy the source is untouched and the copy differs only in grammar.txt; then the real guesser (skip_brute) runs over "
